@@ -1,7 +1,7 @@
 """C10 — chain: concatenation in order with strictly sequential evaluation."""
 from .. import families, scan
 from ..families import short, ctor_fields
-from . import flow, common, joinlike
+from . import flow, common, joinlike, c01
 
 PROPERTY = "C10"
 LEVEL = "other"
@@ -21,6 +21,7 @@ ASSUMPTIONS = [
     "Iterator::nth(i) on a slice iterator yields the element at position i (library model)",
 ]
 RULES = {
+    "C10.LIVE": "premises from the wake protocol, re-checked here for this family: task waker registered first, child polled with its own sub-waker (or the caller's context), no readiness lock across a child poll, a cleared bit is followed by a poll, re-arm after an item, readiness primitives / Wake::wake forward correctly",
     "C10.SEL": "the polled child is selected by self.index: nth(index) over the whole container / one match arm per tuple position",
     "C10.MONO": "index starts at 0; only written as index+1, once per Ready(None) of the selected input, nowhere else",
     "C10.END": "Ready(None) only under index == len (done := true); the test is evaluated after every advance before polling/returning",
@@ -37,6 +38,7 @@ def run(ctx):
         ctx.current_config = cfg
         M = ctx.model(cfg)
         units = families.passthrough_units(M, ("chain",))
+        c01.live_premises(ctx, M, units, "C10.LIVE")
         for u in units:
             rule_sel(ctx, M, u)
             rule_mono(ctx, M, u)
